@@ -52,6 +52,8 @@ snippet("count_nonzero", "def f(a):\n    return np.count_nonzero(a > 2)", [(A5,)
 snippet("cumsum", "def f(a):\n    return np.insert(np.cumsum(a), 0, 0)", [(A5,), (ints(),), (ints(4),)])
 snippet("sum", "def f(a):\n    return a.sum() + np.sum(a)", [(A5,), (ints(),)], exact=False)
 snippet("diff", "def f(a):\n    return np.diff(a)", [(A5,), (ints(2),)])
+snippet("walrus", "def f(a):\n    if (n := len(a)) > 2:\n        return a[:n - 1]\n    return a + n", [(A5,), (ints(1, 2),), (ints(),)])
+snippet("with-noop-context", "def f(a):\n    import numpy\n    from numpy import maximum as mx\n    with np.errstate(all='ignore'):\n        b = mx(a, 2) + numpy.minimum(a, 1)\n    return b", [(A5,)])
 snippet("clip", "def f(a, b):\n    return np.clip(a, 0, 4) + np.clip(b, 3, 1) + np.clip(a, None, 2)", [(A5, ints(1, 1, 9, 0, 5))])
 snippet("where-minmax", "def f(a, b):\n    return np.where(a > b, np.minimum(a, 2), np.maximum(b, 0))", [(A5, ints(1, 1, 9, 0, 5))])
 snippet("append-insert", "def f(a, p):\n    return np.append(np.insert(a, p, 77), 88)", [(A5, p) for p in (0, 2, 5)])
